@@ -85,6 +85,10 @@ InitTallMedium == { f \in InitAll : SortAsc(f[1]) = <<1, 5, 5, 5>> }
 \* rejection bounds do not fall on grid points and several passes reject something, so the convergence criteria decide
 InitSpread == { f \in InitAll : f[1] \in { <<1, 2, 4, 7>>, <<7, 4, 1, 2>> } }      \* two orderings (outlier last / first)
 
+\* window sets that reach the algorithm's zero guards: three equal peaks and an outlier (the standard deviation becomes 0 after the
+\* first pass), a symmetric set (mean fn = mean-curve peak), all peaks equal, two equal pairs
+InitZero == { f \in InitAll : f[1] \in { <<2, 2, 2, 7>>, <<7, 2, 2, 2>>, <<2, 3, 4, 3>>, <<3, 3, 3, 3>>, <<2, 2, 6, 6>>, <<3, 2, 4, 3>> } }
+
 \* C06-focused next-state relation: rich FDWRA parameters, range updates and time-domain masks only
 \* to diversify the states FDWRA starts from
 NextC06 ==
@@ -100,6 +104,7 @@ NextManualOnly == \E r \in Ranges, b \in Boxes : ManualSession(r, b)
 SThrHalf == <<1, 2>>      \* grid step 0.02 Hz: 0.01 Hz = half a step
 SThrQuarter == <<1, 4>>   \* grid step 0.04 Hz
 SThrOne == <<1, 1>>       \* grid step 0.01 Hz
+SThrDyadic == <<16, 25>>  \* grid step 1/64 Hz (every frequency exact in binary): 0.01 Hz = 0.64 steps
 SThrFive == <<5, 1>>      \* grid step 0.002 Hz: the change of the standard deviation is usually below 0.01 Hz, so the RELATIVE
                           \* change of |mean fn - mean-curve peak| decides the convergence
 =============================================================================
